@@ -9,14 +9,15 @@ def block(fn, as_fn, extra_params, extra_args, call_re):
     // the outcome's subtree is visited with the chance reach of ITS path (parent reach x outcome
     // probability) and unchanged player reaches; its payoff enters the expectation weighted by the
     // outcome probability
-    out == fadd(expected, fmul(*prob, sub_spec(*next, fmul(p_chance, *prob), p_player))), // @ob C08.V.chance_reach.product_along_path""",
-             entry="broadcast use fl;\nproof { ax_obeys(); }")
+    exists|pc: f64| rv(pc) == rv(p_chance) * rv(*prob)
+        && rv(out) == rv(expected) + rv(*prob) * rv(#[trigger] sub_spec(*next, pc, p_player)), // @ob C08.V.chance_reach.product_along_path""",
+             entry="broadcast use fl; broadcast use ideal;\nproof { ax_obeys(); ax_rv_lits(); }")
 UNIT = dict(
     id="c08_chance_reach",
-    prelude=["floats.rs"],
-    canary_use="broadcast use fl; ax_obeys();",
+    prelude=["floats.rs", "ideal.rs"],
+    canary_use="broadcast use fl; broadcast use ideal; ax_obeys(); ax_rv_lits();",
     assumptions=[
-        "uninterpreted floats",
+        "idealised-real float mode for the reach product (harmless reorderings of operands do not disturb the proof)",
         "BLOCK: body of the loop over chance outcomes in recurse_single / recurse_multi, with the recursive call bound (R5) to an uninterpreted function of (node, chance reach, player reaches); which outcomes the loop iterates over (all of them / the sampled one) is the ChanceRecurse::next_nodes contract (C10)",
         "the infoset tables passed through the recursion (RefCell / Mutex / atomics) are opaque here",
     ],
